@@ -2,6 +2,8 @@ package main
 
 import (
 	"fmt"
+	"os"
+	"path/filepath"
 	"sort"
 	"strings"
 
@@ -188,6 +190,49 @@ func runC03(c *Ctx) {
 			if c.Unit(func() string { return src }) {
 				c.Count("programs", 1)
 				shapeUnit(c, src, "", long, c03Heads, true)
+			}
+		}
+	}
+	// the same monitor on file input (RunFiles): sizes around the read buffer, newline-rich content
+	if c.Level("files") {
+		dir, err := os.MkdirTemp("", "vmc-c03-")
+		if err == nil {
+			defer os.RemoveAll(dir)
+			for _, size := range []int{4096, 5000, 6100, 8193} {
+				b := make([]byte, size)
+				for i := range b {
+					b[i] = "ab a\nb  a"[i%9]
+				}
+				path := filepath.Join(dir, fmt.Sprint("f", size))
+				os.WriteFile(path, b, 0o644)
+				for _, prog := range []string{"find all 'a' maybe 'b'", "find all at least 1 not ' '", "find last 3 'a'", "find skip 2 whole line", "replace all ('b' = x) with x x", "find all line start any", "find all (any = x) ' ' x", "find all 'b' whitespace"} {
+					prog, size := prog, size
+					if !c.Unit(func() string { return fmt.Sprintf("%s on a %d-byte file", prog, size) }) {
+						continue
+					}
+					v, err, pi := compileSafe(prog)
+					if err != nil || pi != nil {
+						continue
+					}
+					var ms engine.Matches
+					if pi := guard(func() { ms = v.RunFiles([]string{path}, engine.NOTHING, false) }); pi != nil {
+						continue // C07/C09
+					}
+					c.Eval(1)
+					if len(ms) > 0 {
+						c.Nontrivial(1)
+					}
+					first := 1
+					if strings.Contains(prog, "skip 2") {
+						first = 3
+					}
+					if strings.Contains(prog, "last") {
+						first = -1
+					}
+					if msg := shapeViolation(string(b), ms, first); msg != "" {
+						c.Violation("SHAPE file "+strings.Fields(msg)[0], fmt.Sprintf("RunFiles(%q) on a %d-byte file: %s", prog, size, msg), map[string]any{"kind": "file-shape", "src": prog, "size": size})
+					}
+				}
 			}
 		}
 	}
